@@ -1,6 +1,7 @@
 package main
 
 import (
+	"bytes"
 	"encoding/json"
 	"fmt"
 	"os"
@@ -20,6 +21,7 @@ func init() {
 	commands["c01c"] = func(e *env) { fullStack(e, "C01", 21) } // L1 = chunked handler, real clock
 	commands["c01b"] = func(e *env) { fullStack(e, "C01", 22) } // both tiers through the batching pools
 	commands["c09b"] = func(e *env) { fullStack(e, "C09", 29) } // the same for the TTL histories
+	commands["c02c"] = func(e *env) { fullStack(e, "C02", 23) } // L1 = chunked handler, with L1 evictions
 }
 
 // one step of a full-stack history, as written into replays and evidence
@@ -141,6 +143,13 @@ func genReq(r *rig.Rand, proto string, deploy string, now int64, w *rig.Writer) 
 		return genU32(r)
 	}
 	quiet := func() bool { return proto == "bin" && r.Chance(15) }
+	if withStat && proto == "bin" && r.Chance(4) {
+		// a key longer than memcached's 250 bytes: rend passes it on (the backend decides); whatever
+		// the reply, the value bytes that follow the key belong to this request
+		w.Count("key=longer-than-250")
+		kinds := []string{"set", "add", "append", "replace"}
+		return stack.Req{Kind: kinds[r.Intn(len(kinds))], Key: bytes.Repeat([]byte("K"), 251+r.Intn(60)), Data: genData(r, w), Flags: genU32(r), TTL: 0, Opaque: opq(), Quiet: quiet()}
+	}
 	for {
 		switch r.Intn(16) {
 		case 0, 1, 2:
@@ -216,6 +225,9 @@ func genCase(r *rig.Rand, mode int, deploy string, locked bool, proto string, ns
 		now = time.Now().Unix() // only used for the absolute-far TTL class
 	}
 	evp := map[int]int{1: 10, 2: 40, 9: 25}[mode]
+	if evictChunked {
+		evp = 40
+	}
 	for i := 0; i < nsteps; i++ {
 		switch r.Intn(10) {
 		case 0, 1:
@@ -252,6 +264,10 @@ func genCase(r *rig.Rand, mode int, deploy string, locked bool, proto string, ns
 func runCase(c fsCase, w *rig.Writer, refReplies [][]byte, noEvict bool) (coq string, nontrivial bool, failure *rig.GoFailure, replies [][]byte) {
 	b := stack.NewBackends()
 	b.L1.LogOn, b.L2.LogOn = false, false
+	// in half of the histories the backends' replies reach the handlers in small pieces
+	if sg := []int{0, 3, 0, 17}[len(c.Steps)%4]; sg > 0 {
+		b.L1.Segment, b.L2.Segment = sg, sg
+	}
 	l1kind := "std"
 	if chunkedL1 {
 		l1kind = "chunked"
@@ -304,6 +320,20 @@ func runCase(c fsCase, w *rig.Writer, refReplies [][]byte, noEvict bool) (coq st
 					evictedLive = true
 				}
 				b.L1.Evict(k)
+				if chunkedL1 {
+					// the chunked handler keeps key k as k-meta, k-0, k-1, ...: L1 loses all of them
+					for _, bk := range b.L1.Keys() {
+						if strings.HasPrefix(bk, k+"-") {
+							rest := bk[len(k)+1:]
+							if rest == "meta" || (len(rest) > 0 && strings.Trim(rest, "0123456789") == "") {
+								if rest == "meta" {
+									evictedLive = true
+								}
+								b.L1.Evict(bk)
+							}
+						}
+					}
+				}
 			}
 		}
 		cn := dial(st.Port)
@@ -384,6 +414,9 @@ var mode2NT bool
 // clock (the handler reads time.Now() itself)
 var chunkedL1 bool
 
+// evictChunked: mode 21 histories with L1 evictions (C02 over the chunked handler)
+var evictChunked bool
+
 // batchedTiers: full-stack runs in which L1 and L2 are served by the batching pools
 var (
 	batchedTiers bool
@@ -419,12 +452,17 @@ func fullStack(e *env, prop string, mode int) {
 	if mode == 29 { // the TTL histories of mode 9 with both tiers through the batching pools
 		pooled, mode = true, 9
 	}
+	chunkedEvict := false
+	if mode == 23 { // C02 with the chunked handler as L1: mode 21 plus evictions of whole keys from L1
+		chunkedEvict, mode = true, 21
+	}
 	w := rig.NewWriter(e.out, prop, e.tier, e.seed)
 	w.Shards = 16
 	r := rig.NewRand(e.seed + uint64(mode)*1000003)
 	ttlBeyond = mode == 9
 	withStat = mode == 8
 	chunkedL1 = mode == 21
+	evictChunked = chunkedEvict
 	batchedTiers = mode == 22 || pooled
 	sockEnv = e
 	var cases []fsCase
@@ -448,7 +486,7 @@ func fullStack(e *env, prop string, mode int) {
 			}
 		}
 		deploys := []string{"l1only", "l1l2", "l1l2+batch"}
-		if mode == 2 {
+		if mode == 2 || chunkedEvict {
 			deploys = []string{"l1l2", "l1l2+batch"}
 		}
 		for _, deploy := range deploys {
